@@ -3,6 +3,7 @@ import MpireModel.Model.Signal
 import MpireModel.Model.Args
 import MpireModel.Model.Watch
 import MpireModel.Model.Progress
+import MpireModel.Model.BarHandshake
 import MpireModel.Model.Exception
 import MpireModel.Model.History
 import MpireModel.Model.ApplyHandover
@@ -152,6 +153,28 @@ def handleRatios (fs : List (String × String)) : Option String := do
   let k ← getNat fs "epsden"
   let rs := Mpire.Progress.ratios (ps.map fun (p : Nat) => (p : Rat)) ((1 : Rat) / (k : Rat))
   some ("ok " ++ ",".intercalate (rs.map fun r => s!"{r.num}/{r.den}"))
+
+/-! progress-bar completion handshake -/
+open Mpire.BarHandshake in
+def parseBarOp (s : String) : Option Op :=
+  if s == "p" then some .pass else if s == "X" then some .shutdown else if s == "E" then some .exc
+  else if s == "K" then some .kill
+  else if s.startsWith "A" then (s.drop 1).toString.toNat?.map .add
+  else if s.startsWith "S" then (s.drop 1).toString.toNat?.map .setTotal
+  else none
+
+open Mpire.BarHandshake in
+/-- `hshake total=<-|k> ops=<A2,p,S3,p,X,…>` → the state after every pass: `n/total/complete/exited;…` -/
+def handleHShake (fs : List (String × String)) : Option String := do
+  let tot ← getOptNat fs "total"
+  let os := (← get fs "ops")
+  let ops ← if os == "-" || os == "" then some [] else (os.splitOn ",").mapM parseBarOp
+  let showS (s : HS) : String :=
+    s!"{s.n}/{match s.barTotal with | some t => toString t | none => "-"}/{if s.complete then 1 else 0}/{if s.exited then 1 else 0}"
+  let (s, outs) := ops.foldl (fun (acc : HS × List String) op =>
+    let s' := step acc.1 op
+    (s', if op == .pass then acc.2 ++ [showS s'] else acc.2)) (init tot, [])
+  some ("ok " ++ ";".intercalate outs ++ s!" go={if callerGoesOn s then 1 else 0}")
 
 /-! exception -/
 open Mpire.Exc in
